@@ -5,7 +5,8 @@ from common import STRATEGIES, all_seeds, check_cache, check_global_seeds, fail,
 
 BOUND = ("networks with <= 6 variables (all 1-variable, a seeded sample of the 256 2-variable networks, seeded random 3-6 variable networks) plus "
          "hand-built networks with <= 10 variables (motif-avoidant core alone and composed with latches/switches/sources, the inputs of findings "
-         "D1-D12); strategies build, block, bfs, dfs, scc, attractor-seed expansion with default configuration on a fresh diagram; seeds requested for every expanded node, optionally after requesting the candidates with the reduction options switched off")
+         "D1-D12) and block-structured networks with <= 8 variables (a motif-avoidant module regulating a downstream bistable module; the same module under "
+         "different input valuations; with an independent extra module; seeded compositions); strategies build, block, bfs, dfs, scc, attractor-seed expansion with default configuration on a fresh diagram; seeds requested for every expanded node, optionally after requesting the candidates with the reduction options switched off")
 RULE = "non-trivial = the network has at least two attractors or a non-fixed-point attractor"
 CASE_TIMEOUT = 60.0
 COMPLETE = ["build", "block", "bfs", "dfs", "scc", "aseeds"]
@@ -13,7 +14,10 @@ PRE = [[False, False], [True, False], [False, True]]  # (greedy_asp_minification
 
 
 def cases(seed, tier):
-    nets = families.network_family(seed, tier, hand_max_vars=10)
+    yield from families.interleave((net_cases(families.block_nets(seed, tier)), 2), (net_cases(families.network_family(seed, tier, hand_max_vars=10)), 6))
+
+
+def net_cases(nets):
     k = 0
     for name, bnet in nets:
         for strat in COMPLETE:
@@ -41,8 +45,34 @@ def check_with_info(case):
     triples = all_seeds(sd, net)
     for i in sd.expanded_ids():
         out += check_cache(sd, net, i, what=("seeds",))
-    out += check_global_seeds(sd, net, triples, exactly_once=True)
+    per_node_ok = not out
+    glob = check_global_seeds(sd, net, triples, exactly_once=True)
+    if case["strategy"] == "scc" and per_node_ok:
+        glob = [classify_scc_duplicate(sd, net, triples, f) for f in glob]
+    out += glob
     return out, info
+
+
+def classify_scc_duplicate(sd, net, triples, f):
+    """Finding D13 (unchanged tree, source-SCC expansion only): expand_scc expands a node along ONE of several independent source SCCs; a motif-avoidant
+    attractor that the node then owns (correctly, relative to its own successors) also lies in - and is reported by - a node that is spatially inside it
+    but was reached through another parent, i.e. is not its descendant.  Exactly that situation gets its own kind; any other duplicate keeps the general one."""
+    import networkx as nx
+
+    if f["kind"] != "attractor_reported_twice":
+        return f
+    maas = set(net.motif_avoidant())
+    for a in net.attractors():
+        nodes = [i for i, s, _ in triples if s is not None and net.attractor_of(s) == a]
+        if len(nodes) < 2 or f["detail"] != f"attractor containing {net.state_dict(net.states(a)[0])}":
+            continue
+        unrelated = all(y not in nx.descendants(sd.dag, x) and x not in nx.descendants(sd.dag, y) for k, x in enumerate(nodes) for y in nodes[k + 1:])
+        if a in maas and len(set(nodes)) == len(nodes) and unrelated:
+            g = dict(f)
+            g["kind"] = "maa_reported_twice_by_unrelated_scc_nodes"
+            g["detail"] += f"; reported by nodes {nodes} (none a descendant of another; every node's seeds are correct for its own successors)"
+            return g
+    return f
 
 
 def check(case):
